@@ -1,4 +1,4 @@
-CONSTANTS Size = 8  MinSz = 2  MaxLive = 2
+CONSTANTS MaxLive = 2  Configs = {<<6,2>>, <<7,3>>}
 SPECIFICATION Spec
 INVARIANTS TypeOK InStorage NoOverlap IntactInv DistinctIds EmptyRoom
 PROPERTIES Fifo
